@@ -3664,6 +3664,25 @@ impl<'a> Model<'a> {
         Ok(sheet_id)
     }
 
+    /// A defined-name formula is a cell/range reference with a sheet, or a LAMBDA definition
+    fn is_valid_defined_name_formula(&mut self, formula: &str) -> bool {
+        let is_reference =
+            common::ParsedReference::parse_reference_formula(None, formula, self.locale, |name| {
+                self.get_sheet_index_by_name(name)
+            })
+            .is_ok();
+        if is_reference {
+            return true;
+        }
+        let formula_body = formula.strip_prefix('=').unwrap_or(formula);
+        let dummy_ref = self.defined_name_context();
+        let mut node = self.parser.parse(formula_body, &dummy_ref);
+        if let Node::ParseErrorKind { .. } = node {
+            node = self.parse_internal_formula(formula_body, &dummy_ref);
+        }
+        matches!(node, Node::LambdaDefKind { .. })
+    }
+
     /// Delete defined name of name and scope
     pub fn delete_defined_name(&mut self, name: &str, scope: Option<u32>) -> Result<(), String> {
         let name_upper = name.to_uppercase();
@@ -3735,6 +3754,9 @@ impl<'a> Model<'a> {
             if df.name.to_uppercase() == name_upper && df.sheet_id == sheet_id {
                 index = Some(i);
             }
+        }
+        if !self.is_valid_defined_name_formula(new_formula) {
+            return Err("Formula: Invalid defined name formula".to_string());
         }
         // Defined-name formulas are stored internally in English.
         let context = self.defined_name_context();
